@@ -1,5 +1,5 @@
 (* The single entry point of the correspondence drivers. *)
-From PV Require Import Common.Wire Frame.Dispatch Chain.Dispatch Socks.Dispatch Mux.Dispatch Flow.Dispatch.
+From PV Require Import Common.Wire Frame.Dispatch Chain.Dispatch Socks.Dispatch Mux.Dispatch Flow.Dispatch Keepalive.Model.
 
 Definition dispatch (c : list N) : list N :=
   match c with
@@ -8,5 +8,6 @@ Definition dispatch (c : list N) : list N :=
   | 18 :: r => run_socks r
   | 30 :: r => run_mux r
   | 31 :: r => run_flow r
+  | 16 :: r => run_keepalive r
   | _ => MALFORMED
   end.
